@@ -166,12 +166,13 @@ pub fn c27_broken_inner(w: &mut Worker, blob: &[u8], kind: &str, n: usize) -> Fo
     // Decoding the broken inner data and running the interpreter on it happen in an isolated worker process:
     // a corrupted archive may deserialize into values that are not memory safe to touch (see DESIGN.md, C01).
     let Some(v) = victim("B-merges-A") else { return out };
-    let inner_ok = match w.ask(&json!({"op": "decode", "data": crate::worker::hex(&bytes)})) {
+    let isolate = crate::worker::inner_data_validates(&bytes);
+    let inner_ok = match w.ask(&json!({"op": "decode", "isolate": isolate, "data": crate::worker::hex(&bytes)})) {
         Answer::Ok(o) => o["inner"].as_bool().unwrap_or(false),
         Answer::Panic(_) | Answer::Died(_) => false, // C01's business
     };
     let part = &v.sc.cx.world.part;
-    let req = json!({"op": "exec", "air": part.script, "peer": v.sc.cx.world.peers[v.peer].name, "init_id": part.init_peer_id, "particle": part.particle_id,
+    let req = json!({"op": "exec", "isolate": isolate, "air": part.script, "peer": v.sc.cx.world.peers[v.peer].name, "init_id": part.init_peer_id, "particle": part.particle_id,
         "prev": crate::worker::hex(&v.prev), "cur": crate::worker::hex(&bytes), "results": crate::worker::hex(&crate::host::encode_results(&v.results))});
     match w.ask(&req) {
         Answer::Ok(o) => {
